@@ -318,6 +318,27 @@ def rx_oracle(pairs):
     return out
 
 
+# ---- the right operand writes the very location the left operand names: the left operand is READ when the operation is
+# applied, after the right operand has been evaluated (documented order: left, right, operation). No Python expectation:
+# the proved model decides (binary_left_then_right), a disagreement is the failing input.
+SELF_INIT = ["1", "2.5", "\"a\"", "\"10\"", "null", "true", "[1]", "u_n_s_e_t"]
+SELF_RHS = ["x++", "++x", "x--", "(x = 5)", "(x = \"b\")", "(x += 2)", "(x = null)", "bump()", "(x = [2])"]
+SELF_OPS = ["+", "-", "*", "/", "%", "==", "!=", "<", "<=", ">", ">=", "~", "!~", "&&", "||"]
+
+
+def self_write_cases():
+    out = []
+    for init in SELF_INIT:
+        for rhs in SELF_RHS:
+            for op in SELF_OPS:
+                pre = "function bump() { x = 10\n return 1 }\n"
+                setx = "" if init == "u_n_s_e_t" else "x = %s\n " % init
+                out.append((pre + "BEGIN { %sprint (x %s %s)\n print x }" % (setx, op, rhs), [], {"op": op, "l": "x=" + init, "r": rhs}))
+                out.append((pre + "{ x = $.v\n print (x %s %s), x\n print ($.v %s ($.v = 7)), $.v }" % (op, rhs, op),
+                            ['{"v": %s}' % (init if init != "u_n_s_e_t" else "0")], {"op": op, "l": "x=$.v=" + init, "r": rhs}))
+    return out
+
+
 class C05(Check):
     pid = "C05"
     props = ["C05_operators.v"]
@@ -424,6 +445,11 @@ class C05(Check):
             self.unary(rng.choice(UNOPS), pa, rng.choice(modes))
             self.incdec(rng.choice(["x++", "x--", "++x", "--x"]), pa, rng.choice(modes))
         self.regexes(rng, thorough)
+        for prog, inp, meta in self_write_cases():
+            cid = "w%d" % self.n
+            self.n += 1
+            self.cases.append(Case(cid, simple_run(cid, prog, inp), dict(meta, prog=prog, input=inp[0] if inp else "", modes="self-write"),
+                                   True, ("self-write",)))
         return self.cases
 
     def rand_double(self, rng):
